@@ -44,11 +44,12 @@ KINDS = dict(c20.KINDS)
 REQ_KINDS = ["doc-small", "doc-large", "menu", "menu", "menu-root", "menu-root", "html", "mbox-folder",
              "mbox-message", "maildir-folder", "maildir-message", "zip-listing", "zip-member", "zip2-member", "tal",
              "notfound", "gophermap", "url", "pyg", "script", "gz", "script-big", "gz-big", "mbox-message-1",
-             "maildir-message-2", "zip-html-a", "zip-html-b", "stale-links"]
+             "maildir-message-2", "zip-html-a", "zip-html-b", "stale-links", "menu-via-symlink", "menu-via-symlink",
+             "zip-web-listing", "zip2-listing", "hidden-twice"]
 # groups of requests that touch the same underlying object / mechanism (a burst is often drawn from one group)
-GROUPS = [["menu", "menu-root"], ["mbox-folder", "mbox-message", "mbox-message-1"],
+GROUPS = [["menu", "menu-root", "menu-via-symlink"], ["menu", "menu-via-symlink"], ["mbox-folder", "mbox-message", "mbox-message-1"],
           ["maildir-folder", "maildir-message", "maildir-message-2"],
-          ["zip-listing", "zip-member", "zip-html-a", "zip-html-b", "zip2-member"],
+          ["zip-listing", "zip-member", "zip-html-a", "zip-html-b", "zip2-member", "zip-web-listing", "zip2-listing"],
           ["script", "script-big", "gz", "gz-big"], ["html", "tal", "pyg"]]
 BIG = ["doc-large", "script-big", "gz-big", "menu-root", "mbox-folder"]
 PROTOS = c20.PROTOS + ["wap-auto", "http", "https"]
@@ -127,7 +128,21 @@ def gen(seed, index, tier):
     }
     if rng.random() < 0.5:
         sc["bursts"].append(_burst(rng, rng.choice([2, 3, 4])))
-    if st == "ForkingTCPServer" and rng.random() < 0.05:
+    if rng.random() < 0.1:
+        # a storm on one archive: many workers rebuild and rewrite the same index cache files at once
+        storm = []
+        for _ in range(rng.choice([10, 12, 16])):
+            kind = rng.choice(["zip-member", "zip-member", "zip-listing", "zip-html-a", "zip-web-listing"])
+            storm.append({"kind": kind, "proto": rng.choice(["gopher", "http", "gopher+", "gemini"]),
+                          "net": {"role": "normal", "at": 0.0, "segments": [], "delays": [0.0]}})
+        sc["bursts"] = [storm]
+        sc["servertype"] = st = rng.choice(["ForkingTCPServer", "ForkingTCPServer", "ThreadingTCPServer"])
+        sc["preempt_p"] = 0.0
+        sc["policy"] = "random"
+        sc["focus"] = "io"
+        sc["trace_hot"] = False
+        sc["storm"] = True
+    elif st == "ForkingTCPServer" and rng.random() < 0.06:
         # a flood: more simultaneous children than ForkingMixIn.max_children (40), so that the accept
         # loop has to reap with the blocking waitpid(-1, 0) path while clients keep arriving
         flood = []
@@ -139,6 +154,21 @@ def gen(seed, index, tier):
         # a few of them keep their child alive for a while (the request arrives late)
         for cl in flood[:6]:
             cl["net"]["delays"] = [rng.choice([2.0, 10.0])]
+        if rng.random() < 0.5:
+            # max_children (40) clients that connect and then stay silent for a while, and a few ordinary
+            # clients that arrive after them
+            slow = []
+            stall = rng.choice([5.0, 30.0, 59.0])
+            for _ in range(rng.choice([40, 41, 44])):
+                slow.append({"kind": rng.choice(["doc-small", "menu", "html"]), "proto": rng.choice(["gopher", "http"]),
+                             "net": {"role": "stalled", "at": 0.0, "first": rng.choice([0, 1]), "stall": stall,
+                                     "then": "rest"}})
+            late = []
+            for _ in range(rng.choice([1, 2, 3])):
+                late.append({"kind": rng.choice(["doc-small", "menu", "notfound"]),
+                             "proto": rng.choice(["gopher", "http", "gopher+"]),
+                             "net": {"role": "normal", "at": 1.0, "segments": [], "delays": [0.0]}})
+            flood = slow + late
         sc["bursts"] = [flood]
         sc["preempt_p"] = 0.0
         sc["trace_hot"] = False
@@ -254,8 +284,16 @@ def execute(sc, tape=None):
                             sent = c.last_client_byte_at
                             lag = (c.closed_at - sent) if (sent is not None and c.closed_at is not None) else 0.0
                             if lag > 1.0:
+                                bsig = {"oracle": "bounded-liveness"}
+                                maxc = getattr(run.server, "max_children", None)
+                                if run.forksim is not None and maxc and any(
+                                        nk >= maxc and t1 - max(t0_, sent) > 1.0
+                                        for (t0_, t1, nk) in run.forksim.block_intervals):
+                                    # the accept loop sat in the blocking waitpid(-1, 0) of
+                                    # ForkingMixIn.collect_children with max_children live children
+                                    bsig["cause"] = "accept-loop-reaps-blocking-at-max_children"
                                 viol = {"oracle": "bounded-liveness",
-                                        "signature": {"oracle": "bounded-liveness"},
+                                        "signature": bsig,
                                         "detail": "client %d sent its request at t+%.3f but was answered %.3f s later "
                                                   "(roles in burst: %r)" % (c.id, sent - sched.EPOCH, lag,
                                                                           [x["net"]["role"] for x in burst])}
